@@ -31,7 +31,9 @@ claim("C16",
       "(fallback only for ids still missing) and bjobs (EXIT refinement) for ALL tables and queried id lists: the answer for id j is the "
       "state of the last row whose id EQUALS j, rows of other ids never matter. Tie: tables regenerated from source each run; the real "
       "check_jobs of the Slurm/LSF adapters (process layer scripted) and Flux state functions compared with the model inside Coq; the "
-      "monitors applied to the implementation's answers are proved of the model (C16_monitor_*).",
+      "monitors applied to the implementation's answers are proved of the model (C16_monitor_*); the engine layer above the adapters "
+      "(ExecutionGraph.check_study_status: a job with no key or None leaves its step without a state, Sched/ParseEngine.v: "
+      "C16_engine_absent/present) is run on the adapters' real answers.",
       "Coq proof (induction over rows; finite table facts by vm_compute over regenerated data) + in-Coq differential correspondence",
       "DESIGN.md 5/C16, 10")
 claim("C08",
@@ -131,7 +133,10 @@ claim("C17",
       "poll completes at least one more instance, the run ends FINISHED with every row DRYRUN within length+1 polls, each node's script is "
       "generated exactly once and the generation sequence equals that of the real run under an ideal scheduler (lock-step simulation). "
       "Tie: T-code, dry and real histories side by side against the real ExecutionGraph, and real `maestro run --dry -fg` over "
-      "{--hashws}x{--usetmp}x throttle x attempts compared with real runs (no submit/check/execute; same script bytes; exit 0).",
+      "{--hashws}x{--usetmp}x throttle x attempts compared with real runs (no submit/check/execute; same script bytes, directory tree and "
+      "permission bits; exit 0); process layer (c17_procs.py): real Slurm/LSF/Flux/local adapters, every process door and fake scheduler "
+      "executables observed, cancel requests injected, dry run must record nothing; the callees of every adapter constructor/write_script "
+      "are regenerated (Gen/CtorEffects.v) and proved free of process/engine/broker calls except Flux's version read.",
       "Coq proof (dry-run invariant + simulation; monitor proved silent on the model) + in-Coq correspondence + end-to-end dry runs through the CLI",
       "DESIGN.md 5/C17, 10")
 claim("C20",
@@ -153,7 +158,8 @@ claim("C01",
       "Coq theorem for all graphs, configs and poll-input lists: the observable-trace monitor for C01 (every submission - main or restart, "
       "scheduled or local - happens only when all parents have succeeded according to the ledger of delivered reports) is silent on the "
       "model's own trace (prop_ok 1), via an inductive coupling between the model state and the ledger; companion C08 theorems show the "
-      "execution graph's parents are exactly the dependency sets. " + _EXEC,
+      "execution graph's parents are exactly the dependency sets; Exec/ExecStaged.v + harness/c01_staged.py additionally decide C01 on graphs "
+      "staged by the real Study.stage() with the expected parents taken from the Coq expansion model. " + _EXEC,
       "Coq proof (inductive invariant coupling state and observable ledger; monitor proved silent on the model) + in-Coq differential correspondence",
       "DESIGN.md 5/C01, 10")
 claim("C03",
